@@ -24,6 +24,8 @@ type tcase struct {
 	FanOut    bool              `json:"fan_out"`
 	Rootless  bool              `json:"rootless_response"`
 	GNoRespEd bool              `json:"answering_node_without_response_connection,omitempty"`
+	// LogLevel: the gateway's log level while the flows are built and run ("" = logging off); the output is discarded
+	LogLevel string `json:"log_level,omitempty"`
 }
 
 func kindOf(f fg.Flow, key string) fg.Proc {
@@ -37,7 +39,7 @@ func kindOf(f fg.Flow, key string) fg.Proc {
 
 func genCase() *rapid.Generator[tcase] {
 	return rapid.Custom(func(t *rapid.T) tcase {
-		c := tcase{}
+		c := tcase{LogLevel: rapid.SampledFrom([]string{"", "", "", "error", "debug", "trace", "trace"}).Draw(t, "log-level")}
 		f := fg.Flow{Name: "uflow", URL: "h.com/g"}
 		n := rapid.IntRange(1, 5).Draw(t, "nreq")
 		big := rapid.IntRange(0, 4).Draw(t, "big") == 0
@@ -324,6 +326,11 @@ func userEvents(all []engine.ProcEvent, flow, dir string) []event {
 }
 
 func runCase(r *ev.Recorder, rec *engine.Recorder, c tcase) (nontrivial bool, err error) {
+	engine.WithLogLevel(c.LogLevel, func() { nontrivial, err = runCaseAtLevel(r, rec, c) })
+	return nontrivial, err
+}
+
+func runCaseAtLevel(r *ev.Recorder, rec *engine.Recorder, c tcase) (nontrivial bool, err error) {
 	dir, e := engine.NewDir(scratch)
 	if e != nil {
 		return false, infraErr{e.Error()}
